@@ -253,6 +253,8 @@ def run_batch(case):
                           detail=f'call {t + 1} raised {e!r} (names {names!r} [{kinds}], loss {case["loss"]})')
         if x != x_before:
             return Result(False, key='C15:mutated-arguments', detail='x was modified')
+        if case['cls'] == 'interval' and ex.seen_samples != t + 1:
+            return Result(False, key='C15:seen_samples', detail=f'IntervalSage.seen_samples={ex.seen_samples} after {t + 1} explain_one calls')
         if ret != ex.importance_values:
             return Result(False, key='C15:return-value', detail='returned dict differs from importance_values')
         if len(ret) != d or set(ret) != set(names):
